@@ -49,7 +49,9 @@ class Ctx:
 
     # ---- sizes
     def big(self):
-        return self.tier == "thorough" or self.widened or bool(self.anchor_changed)
+        """Structural switches of the generators (larger alphabets, extra families) follow the tier only;
+        the anchor-change / widened bump goes through n()."""
+        return self.tier == "thorough"
 
     def n(self, quick, thorough):
         """Sample size: the thorough size in the thorough tier; in the quick tier a widened search (after a broken
